@@ -26,7 +26,12 @@ ALL = os.environ.get("CALIB_ALL") == "1"          # measure the 40m/60m guesses 
 NOHEAVY = os.environ.get("CALIB_NOHEAVY") == "1"  # leave the 2^26-byte runs to a run with enough memory
 def guess(r):
     return int(r.get("timeout", "10m").rstrip("m"))
-work = sorted(((guess(r), pid, i, r) for pid in sorted(cands) for i, r in enumerate(cands[pid])), key=lambda t: t[:3])
+FIRST = [x for x in os.environ.get("CALIB_FIRST", "").split("|") if x]  # substrings of run keys to measure first
+def prio(pid, r):
+    key = "%s %s.%s %s" % (pid, r["pkg"], r["fn"], json.dumps(r.get("params", {}), sort_keys=True))
+    return 0 if any(x in key for x in FIRST) else 1
+work = sorted(((prio(pid, r), guess(r), pid, i, r) for pid in sorted(cands) for i, r in enumerate(cands[pid])), key=lambda t: t[:4])
+work = [t[1:] for t in work]
 for _, pid, _, r in work:
     if only and pid not in only:
         continue
